@@ -2,7 +2,8 @@
 (***************************************************************************)
 (* Key objects (property C34).                                             *)
 (* L0  a key set is a function kid -> [u : usage, st : "valid"|"retained"| *)
-(*     "revoked", vf : valid_from seconds (None = -1 = epoch 0)]           *)
+(*     "revoked", vf : valid_from seconds (None = -1 = epoch 0),           *)
+(*     sc : seconds of the change id of the last status change]            *)
 (* L1  - a token made with a key that was EVER seen revoked on a server is *)
 (*       not accepted by that server (incl. after reload / replication),   *)
 (*     - a successful signature at time t uses a newest non-revoked key    *)
@@ -58,6 +59,13 @@ IsLoad(obj) ==
        /\ DOMAIN obj.active[u] = {obj.all[k].vf : k \in {j \in OfUsage(obj.all, u) : obj.all[j].st = "valid"}}
        /\ \A v \in DOMAIN obj.active[u] :
             LET k == obj.active[u][v] IN k \in OfUsage(obj.all, u) /\ obj.all[k].st = "valid" /\ obj.all[k].vf = v
+
+\* valueset trim: a revoked key whose status change id is older than the changelog window is dropped
+\* (ValueSetKeyInternal::trim; applied to the merged valueset in replication).  A revocation therefore
+\* has to be stamped with the change id of the REVOKING transaction, else it is dropped at once.
+Trim(keys, now, MaxAge) ==
+  LET keep == {k \in DOMAIN keys : ~(keys[k].st = "revoked" /\ keys[k].sc < now - MaxAge)}
+  IN  [k \in keep |-> keys[k]]
 
 \* valueset merge (plugin store and replication): new keys inserted, status only moves up
 Rank(s) == CASE s = "valid" -> 0 [] s = "retained" -> 1 [] s = "revoked" -> 2
